@@ -124,6 +124,78 @@ theorem roots_shape (H : Bytes → Bytes) (items : List Item) (h : Nat) :
   simp only [List.getD_eq_getElem?_getD, List.getElem?_map]
   cases (addAll H {} items).roots[h]? <;> simp
 
+theorem verify_hashRoots (H : Bytes → Bytes) (R : List (Option Node)) (n m : Nat) (ws : List Witness) (h : Bytes) :
+    ({ roots := hashRoots R, length := n } : Acc).verify H ws h =
+      ({ roots := R, length := m } : Acc).verify H ws h := by
+  simp only [Acc.verify, hashRoots, List.length_map, List.getElem?_map]
+  split
+  · rfl
+  · cases R[ws.length]? with
+    | none => rfl
+    | some o =>
+      cases o with
+      | none => rfl
+      | some t => rfl
+
+/-- **C27 (persist and recover with the same witnesses).** Append any items to the empty
+    accumulator, `Flush` into any bucket `db0`, and `Recover` a fresh accumulator from what was
+    stored. If `H` has no collision among the values `Flush` wrote (`allPreimages`: the item data
+    and the 64 byte branch serialisations — an explicit finite list), then the recovered
+    accumulator has the same length and, for every index, `WitnessFor` returns exactly the
+    witness the in-memory accumulator returns, and `Verify` accepts it. Without a nil-slot
+    panic for any length (the repaired `flushRoots` has no failure outcome). -/
+theorem recover_same_witnesses (H : Bytes → Bytes) (hlen : ∀ x, (H x).length = 32) (db0 : DB)
+    (items : List Item) (hv : ∀ it ∈ items, it.Valid)
+    (hn : NoColl H (allPreimages (addAll H {} items).roots)) :
+    let a := addAll H {} items
+    let db := (a.flush db0).2.1
+    let b := recover (some (a.flush db0).2.2)
+    b.length = a.length ∧
+    ∀ i, i < items.length → ∃ ws,
+      (a.witnessFor db i).2 = .ok ws ∧ (b.witnessFor db i).2 = .ok ws ∧
+      b.verify H ws ((items.map (Item.leafHash H)).getD i []) = .ok := by
+  intro a db b
+  obtain ⟨hinv, hl⟩ := addAll_inv H items hv {} [] (by simp [RootsInv]) rfl
+  simp only [List.nil_append, List.length_nil, Nat.zero_add] at hinv hl
+  obtain ⟨e1, e2, _⟩ := flushRoots_spec H _ hn a.roots 0 _ db0 hinv (fun x hx => hx)
+  have hbroots : b.roots = hashRoots a.roots := by
+    show (recover (some ⟨(flushRoots a.roots db0).2.1, a.length⟩)).roots = _
+    rw [e1]; exact recover_roots H hlen a.roots 0 _ _ hinv
+  have hblen : b.length = a.length := rfl
+  have hdb : db = (flushRoots a.roots db0).2.2 := rfl
+  refine ⟨hblen, ?_⟩
+  intro i hi
+  obtain ⟨ws, hw, hver⟩ := witness_verifies H hlen db items hv i hi
+  refine ⟨ws, by rw [hw], ?_, ?_⟩
+  · have hyp : ∀ k t idx, a.roots[k]? = some (some t) → idx < 2 ^ k →
+        ∃ n' ws, witnessNode db k (.hash t.hashOf) idx [] = (n', .ok ws) ∧
+          witnessNode db k t idx [] = (t, .ok ws) := by
+      intro k t idx hk hidx
+      obtain ⟨⟨ls, ht⟩, hp⟩ := rootsInv_slot H a.roots 0 _ k t hinv hk
+      rw [Nat.zero_add] at ht
+      have hst : StoredAll H db t.preimages := fun x hx => by rw [hdb]; exact e2 x (hp x hx)
+      obtain ⟨n', ws', h1, h2⟩ := witnessNode_hash_stored H hlen db ht hst idx [] hidx
+      exact ⟨n', ws', by simpa using h1, by simpa using h2⟩
+    have hloop := witnessLoop_recovered db a.roots hyp a.roots.length i
+    have hge : ¬ i ≥ a.length := by show ¬ i ≥ (addAll H {} items).length; omega
+    have hge' : ¬ i ≥ b.length := by rw [hblen]; exact hge
+    have hwa : (a.witnessFor db i).2 = (witnessLoop db a.roots a.roots.length i).2 := by
+      simp only [Acc.witnessFor, hge, if_false]
+    have hwb : (b.witnessFor db i).2 = (witnessLoop db (hashRoots a.roots) a.roots.length i).2 := by
+      simp only [Acc.witnessFor, hge', if_false, hbroots, hashRoots, List.length_map]
+    rw [hwb, hloop, ← hwa, hw]
+  · have : b = { roots := hashRoots a.roots, length := b.length } := by
+      cases hb : b with
+      | mk r l => rw [hb] at hbroots; simp at hbroots; simp [hbroots]
+    rw [this, verify_hashRoots H a.roots b.length a.length]
+    exact hver
+
+/-- non-vacuity of `NoColl`: a hash without collision on what two items make `Flush` write -/
+example : ∃ (H : Bytes → Bytes), (∀ x, (H x).length = 32) ∧
+    NoColl H (allPreimages (addAll H {} [.data [1], .data [2]]).roots) :=
+  ⟨fun x => (x.reverse ++ List.replicate 32 0).take 32, by intro x; simp,
+    by unfold NoColl; decide⟩
+
 /-- **F6, code as found (`WitnessFor`)**: with 5 items, index 4 lies in the range the old loop
     attributes to the empty slot 1, which it dereferences: a nil-pointer panic, for every `H`. -/
 theorem old_witnessFor_panics (H : Bytes → Bytes) (db : DB) :
